@@ -142,6 +142,19 @@ pub fn run_case(cx: &mut UnitCtx, case: &Sx) -> String {
             }
             format!("(rmod [{}])", out.join(" "))
         }
+        // (uexp EX EY EZ [ (mstep V VDT REFSTATE) .. ]) : ExponentialCurve with arbitrary exponents
+        "uexp" => {
+            let mut m = ExponentialCurve::new(Vec3::new(a[0].f(), a[1].f(), a[2].f()));
+            let mut time = Time::<Virtual>::default();
+            let actions = ActionsData::default();
+            let mut out = vec![];
+            for st in a[3].list() {
+                let (_, b) = st.app();
+                time.advance_by(secs(b[1].f64()));
+                out.push(show_value(m.apply(&actions, &time, parse_value(&b[0]))));
+            }
+            format!("(rmod [{}])", out.join(" "))
+        }
         o => panic!("unknown unit case {o}"),
     }
 }
